@@ -64,15 +64,15 @@ PROPS = {
     'C20': dict(
         family='discovery', fields=['r', 'doc', 'es', 'times'], timeout=1500,
         extra_runs=[dict(family='discovery-real', diff=False, tier='thorough')],
-        facts=['initializeMetadataLoops', 'metadataRetryIntervalSec', 'discoveryMaxRetries', 'discoveryBaseDelaySec', 'discoveryMaxDelaySec', 'initWaitSec'],
+        facts=['initializeMetadataLoops', 'metadataRetryIntervalSec', 'discoveryMaxRetries', 'discoveryBaseDelaySec', 'discoveryMaxDelaySec', 'initWaitSec', 'metadataRequired'],
         trusted=['real-time liveness is represented by the virtual clock (testing/synctest); the metadata cache\'s 5-minute clean-up goroutine is stopped through the overlay hook (it only drops an already expired document) '
                  'because a goroutine waiting for the mutex GetMetadata holds during a whole round is not durably blocked under synctest',
                  'the 5-minute cap of one discovery round is not modelled (unreachable for answers of under a minute)'],
-        rule='one case = one request against an instance created by New() with a scripted discovery endpoint (0-40 faults of kinds refused / 5xx / malformed JSON / slow-then-fail, recovery with immediate or slow answers, '
-             'a document without issuer, further faults and changed documents hitting the hourly refresh), arriving before, during and after recovery, one third with a client that gives up after 1-40 s; plus one comparison of all '
+        rule='one case = one request against an instance created by New() with a scripted discovery endpoint (0-40 faults of kinds refused / failing status / malformed JSON / slow-then-fail / 200 answers that are JSON but not provider metadata, recovery with immediate or slow answers, '
+             'further faults and changed documents hitting the hourly refresh), arriving before, during and after recovery, one third with a client that gives up after 1-40 s; plus one comparison of all '
              'discovery attempt instants per scenario; distinct = distinct (script position, answer); non-trivial = all',
         assumptions=['requests never arrive exactly on a timer boundary (select would choose at random)'],
-        explanation='Lean: fail_closed, not_served_before_init, empty_issuer_never_served, heals (any finite fault script, bound on the instant), served_after_init, latest_wins, round_first_healthy; facts: initializeMetadata loops, constants; tie: status of every request, document in force, exact virtual instants of every discovery attempt incl. the hourly refresh; oracle: nothing but 503/408 before a healthy answer completed, serving hours after recovery',
+        explanation='Lean: fail_closed, not_served_before_init, empty_issuer_never_served, heals (any finite fault script, bound on the instant), served_after_init, latest_wins, round_first_healthy, init_document_complete / refresh_keeps_documents_complete (only documents carrying every required member are ever served with; the required members are extracted from fetchMetadata and the driver classifies 200 answers with them); facts: initializeMetadata loops, constants; tie: status of every request, document in force, exact virtual instants of every discovery attempt incl. the hourly refresh; oracle: nothing but 503/408 before a healthy answer completed, serving hours after recovery',
     ),
     'C05': dict(
         family='sched', driver_family='handler', fields=['class', 'code', 'calls', 'loc', 'jar', 'hdrs', 'down'], facts=['poolPutCount', 'poolPutOnlyBeforeNilReturn', 'cacheLockedMethods', 'cacheUnlockedMethods', 'nestedLockCalls', 'housekeepingCalls'],
